@@ -31,30 +31,34 @@ import time
 from .. import core
 
 RULE = ("cases = (family, aliasing variant, size n): families are loops of k~n in-place-eligible mutation statements "
-        "(list/nested rows/dict/vector/bytes/string/struct field/consume round trip/closure/while driver, and seeded "
-        "random mixtures of such statements over several collections) on a collection of ~n elements; variants = "
-        "unaliased, `y := x`, stored in another container, 3 holders, alias released before the loop, alias of an inner "
-        "row, every holder mutates; sizes n, 2n, 4n. distinct = distinct (family, variant, n) triple (mixtures: the "
-        "generated program text); non-trivial = the loop ran to completion AND the sharing precondition (Rc strong count "
-        "on every container node of the mutated path after the setup) was observed to be exactly the one the variant "
-        "is meant to establish AND the payload probe measured a buffer of >= 8 KiB. Controls (deliberate copy per "
-        "operation) are executed cases too but are judged for looking quadratic.")
+        "(list / nested rows / dict / vector / bytes / string byte / struct field / struct inside a list / consume round trip / "
+        "closure over a captured variable / while driver / alias re-taken four times by the loop, and seeded random "
+        "mixtures of 2-6 such statements over 1-4 collections with for/while/closure drivers) on a collection of ~n "
+        "elements; variants = unaliased, `y := x`, stored in another container, 3 holders, alias taken and released "
+        "before the loop, alias of an inner row, every holder mutates (thorough also: the loop mutates the later-made "
+        "reference); sizes n, 2n, 4n (thorough: 1000*2^k up to 128000). distinct = distinct (family, variant, n) triple "
+        "(mixtures: the generated program text and n); non-trivial = the loop ran to completion AND the sharing "
+        "precondition (Rc strong count on every container node of the mutated path after the setup) was observed to be "
+        "exactly the one the variant is meant to establish AND the payload probe measured a buffer of >= 8 KiB. "
+        "Controls (deliberate copy per operation) are executed cases too, judged for looking quadratic.")
 ASSUMPTIONS = [
     "the harness's counting allocator sees every heap request of the interpreter (single-threaded, exact, deterministic)",
-    "payload(n) is the size of the single big request made by one forced copy-on-write of the collection (measured per family and size, not computed)",
-    "thresholds from DESIGN C02: L <= 8 per payload-sized collection + 2 per additional holder, B(4n)/B(n) <= 6; calibrated against in-place families (L 0..3, ratio 3.9..4.1) and copying controls (L >= n/2, ratio >= 12)",
-    "families that are O(n) per operation by nature (vector arithmetic +=, prepend, remove x[0], string $=) and operations the interpreter does not support (pop/remove on vectors, bytes, strings) are not part of the workload",
-    "fuel/timeout/crash of a workload is inconclusive; sizes are bounded (quick n <= 8000, thorough n <= 131072, controls n <= 8000)",
+    "payload(n) is the size of the single big request made by one forced copy-on-write of the collection (`__p := x; __p[0] = ...`), measured per family and size on the real interpreter, not computed",
+    "thresholds from DESIGN C02: L <= 8 per payload-sized collection + 2 per additional holder, B(4n)/B(n) <= 6; measured on this tree: in-place families L 0..5 and ratio 3.93..4.00, copying controls L >= n/4..2n and ratio 15.2..16.0",
+    "a group of families is only judged when its own control programs (same statement forms with an alias taken in every iteration) were seen above both thresholds in the same shard; otherwise its cases are inconclusive",
+    "not part of the workload because the property does not promise them: operations that are O(n) per operation by nature (vector arithmetic +=, prepend, remove x[0], string $=), operations the interpreter rejects (pop/remove on vectors, bytes and strings raise a type error), swap / every / destructuring assignment / dict key removal (not in the property's list)",
+    "dict families run at n/4 entries and the four-big-rows families at n/2 per row (keeps the canonical dumps that come with the sharing observation small); string byte assignment is capped at n = 16000 (UTF-8 revalidation is O(size) time per assignment, no allocation)",
+    "fuel/timeout/crash of a workload is inconclusive; sizes are bounded (quick n <= 8000, thorough n <= 128000, controls n <= 4000 quick / 8000 thorough)",
 ]
 PLAN = {
     "quick": {"sizes": [2000, 4000, 8000], "control_sizes": [1000, 4000], "mixtures": 32, "mix_bases": [1000], "group_weight": 6, "shards": 16},
     "thorough": {"sizes": [1000, 2000, 4000, 8000, 16000, 32000, 64000, 128000], "control_sizes": [1000, 2000, 4000, 8000],
-                 "mixtures": 320, "mix_bases": [1000, 2000, 4000, 8000, 16000], "group_weight": 14, "shards": 16},
+                 "mixtures": 320, "mix_bases": [1000, 2000, 4000, 8000, 16000], "group_weight": 60, "shards": 16},
 }
-REG = dict(level="exploration", min_nontrivial=400, min_nontrivial_thorough=2000, max_inconc=0.02,
+REG = dict(level="exploration", min_nontrivial=600, min_nontrivial_thorough=2500, max_inconc=0.02,
            technique="allocation-scaling runtime monitor: exact counting allocator around one loop statement per (family, aliasing variant, size), measured payload threshold, Rc strong-count precondition, copying control programs as sensitivity self-check",
-           claim="For every executed (family, variant, size) whose sharing precondition was verified, the loop of k~n mutations made at most 8 payload-sized requests per collection (+2 per additional holder) and total bytes grew by a factor <= 6 from n to 4n, while control programs that copy once per operation were seen far above both thresholds in the same run. Exploration over the listed statement forms and sizes, not a proof for all programs.",
-           note="Judges allocation only (values are C01's business). Big threshold is payload/4 with the payload measured by a forced copy-on-write; payloads below 8 KiB are inconclusive. Controls are capped at n = 8000.")
+           claim="For every executed (family, variant, size) whose sharing precondition was verified, the loop of k~n mutations made at most 8 payload-sized requests per collection (+2 per additional holder) and total bytes grew by a factor <= 6 from n to 4n, while control programs that copy once per operation were seen far above both thresholds in the same run. Exploration over the listed statement forms, aliasing variants and sizes, not a proof for all programs.",
+           note="Judges allocation only (values are C01's business). Big threshold is payload/4 with the payload measured by a forced copy-on-write; payloads below 8 KiB are inconclusive. Trusts the harness's allocator counters and Rc strong counts.")
 
 MIN_PAYLOAD = 8192
 PROBE_THRESHOLD = 2048
@@ -144,9 +148,11 @@ fam("rows_append", "rows", ROWS, FORR + "x[i] append= i", depth=1, inner=ROW_INN
 fam("rows_concat", "rows", ROWS, FORR + "x[i] ++= [i]", depth=1, inner=ROW_INNER)
 fam("rows_pop", "rows", ROWS, FORR + "pop x[i]", depth=1, inner=ROW_INNER)
 fam("rows_remove_last", "rows", ROWS, FORR + "remove x[i][-1]", depth=1, inner=ROW_INNER)
-fam("deep_set", "rows", DEEP, FORR + "x[i][1][0] = i", depth=2)
-fam("deep_opidx", "rows", DEEP, FORR + "x[i][0][1] += 2", depth=2)
+fam("deep_set", "deep", DEEP, FORR + "x[i][1][0] = i", depth=2)
+fam("deep_opidx", "deep", DEEP, FORR + "x[i][0][1] += 2", depth=2)
 fam("ctl_rows_set", "rows", ROWS + ["__c := null"], FORR + "(__c = x; x[i][1] = i)", depth=1, control=True)
+fam("deep_append", "deep", DEEP, FORR + "x[i][1] append= i", depth=2)
+fam("ctl_deep_set", "deep", DEEP + ["__c := null"], FORR + "(__c = x; x[i][1][0] = i)", depth=2, control=True)
 
 # --- nested rows: four big rows (payload = one row buffer, C = 4 collections)
 BIG_INNER = ("__r := x[1]", 1)
@@ -196,6 +202,9 @@ fam("struct_opidx", "struct", STRUCT, FOR + "x[fa][i] += 1", probe_src="x[fa]", 
 fam("struct_append", "struct", STRUCT, FOR + "x[fa] append= i", probe_src="x[fa]", depth=1, alias_depth=1)
 fam("struct_concat", "struct", STRUCT, FOR + "x[fa] ++= [i]", probe_src="x[fa]", depth=1, alias_depth=1)
 fam("struct_pop", "struct", STRUCT, FOR + "pop x[fa]", probe_src="x[fa]", depth=1, alias_depth=1)
+NSTRUCT = ["struct S (fa, fb)", "x := [S(list(0 til @N), [1, 2]), S([3], [4])]"]
+fam("nested_struct_set", "struct", NSTRUCT, FOR + "x[0][fa][i] = i + 1", probe_src="x[0][fa]", depth=2)
+fam("nested_struct_append", "struct", NSTRUCT, FOR + "x[0][fa] append= i", probe_src="x[0][fa]", depth=2)
 fam("ctl_struct_set", "struct", STRUCT + ["__c := null"], FOR + "(__c = x; x[fa][i] = i + 1)", probe_src="x[fa]", depth=1,
     alias_depth=1, control=True)
 
